@@ -51,6 +51,14 @@ def gen(ctx):
         {"ops": [{"op": "replace", "path": "", "value": {"r": []}}, {"op": "add", "path": "/r/-", "value": 1}], "doc": {"a": 1}},
         {"ops": [{"op": "add", "path": "/a", "value": {"k": []}}, {"op": "copy", "from": "/a", "path": "/b"}, {"op": "add", "path": "/b/k/-", "value": 1}], "doc": {}},
     ]
+    # one Python object as the value of several operations, edited by a later operation: every use is its own copy
+    for mk in (lambda: {"items": []}, lambda: [[]], lambda: {"k": {"n": []}}):
+        v = mk()
+        inner = "/items/-" if "items" in (v if isinstance(v, dict) else {}) else ("/0/-" if isinstance(v, list) else "/k/n/-")
+        for first, second in (("add", "add"), ("add", "replace"), ("addne", "add"), ("add", "addap")):
+            shared = [{"op": first, "path": "/a", "value": v}, {"op": second, "path": "/b" if second != "addap" else "/l/9", "value": v}, {"op": "add", "path": "/a" + inner, "value": 1}]
+            cases.append({"ops": shared, "doc": {"b": 0, "l": []}})
+            cases.append({"ops": shared + [{"op": "copy", "from": "/a", "path": "/c"}, {"op": "add", "path": "/c" + inner, "value": 2}], "doc": {"b": 0, "l": []}})
     # complete grid for the two non-standard operations: every final token kind x every parent kind
     gdocs = [{"a": 1, "foo": {"a": 1, "#a": 2, "0": 3}, "arr": [1, 2], "#foo": 0, "e": {}}, {"foo": 1}, [[1], {"a": 1}], {"~a": 1, "a": [0]}]
     gtoks = ["a", "#a", "~0a", "#foo", "~0foo", "foo", "0", "1", "2", "3", "-", "#0", "#1", "~00", "zz", "", "01", "-1"]
